@@ -725,7 +725,7 @@ def str_conversions(check: Check, repo: Repo, rule: str = "STR-TOTAL") -> None:
 SCHEMA_RAISE_ALLOWED = {
     # (function that contains the raise, class) -> why it cannot be reached by an invalid *schema*
     ("assert_schema", "TypeError"): "precondition on the argument itself: validate_schema(<not a schema>) is a caller error, not an invalid schema",
-    ("assert_leaf_type", "TypeError"): "validate_input_value_impl reaches it after the non-null, list and input-object arms: the type of an input position that passed is_input_type is a leaf there",
+    ("assert_leaf_type", "TypeError"): "reached after the non-null, list and input-object arms; the type is an input type there - the top-level call is made for positions that passed is_input_type (KIND-CONTRADICTION) and every descent into a field type is under is_input_type(field.type) (checked below: INPUT-DESCENT clause)",
     ("format_list", "ValueError"): "and_list() is called with the operation types sharing a root type, at least two names",
     ("inspect_recursive", "Exception"): "`raise AttributeError` inside inspect_recursive's own try/except AttributeError (control flow for objects without __inspect__)",
 }
@@ -753,3 +753,25 @@ def schema_validation_total(check: Check, repo: Repo, mr: MayRaise, rule: str = 
         check.ob(rule, fn, f"validate_schema: {cls} raised in {term}()", why is not None,
                  f"allowed: {why}" if why else f"can leave validate_schema: {chain[:260]}")
     check.floor(rule, 2, "explicit raise sites reachable from validate_schema")
+    # INPUT-DESCENT: the reason given for assert_leaf_type is a property of the code, so it is checked
+    from rules.language_rules import norm_facts
+
+    for q in ("validate_input_value_impl", "validate_input_literal_impl"):
+        f2 = repo.func("utilities.validate_input_value", q)
+        flow = FactFlow(CFG(f2))
+        n = 0
+        for c in walk_body(f2):
+            if not (isinstance(c, ast.Call) and call_name(c) == q):
+                continue
+            targs = [a for a in c.args if isinstance(a, ast.Attribute) and a.attr == "type" and isinstance(a.value, ast.Name)]
+            if not targs:
+                continue  # item / inner types of a type that is already known to be an input type
+            n += 1
+            t = unparse(targs[0])
+            facts = norm_facts(flow.facts_at(c))
+            ok = (f"is_input_type({t})", True) in facts
+            check.ob(rule, c, f"{q}: descends into `{t}`", ok,
+                     f"under is_input_type({t})" if ok else
+                     f"`{t}` may be an output type in an invalid schema (input I {{ f: Query }}): assert_leaf_type raises TypeError out of validate_schema")
+        if n == 0:
+            raise AnalysisError(f"{q}: descent into field types not found")
